@@ -201,6 +201,23 @@ func main() {
 		}
 	}
 	scen = append(scen, [][]string{{"A", "R", "A"}}, [][]string{{"A", "R", "RR", "A", "A"}})
+	// many simultaneous holders: ids far beyond the handful the small scenarios reach
+	rep := func(op string, n int) []string {
+		out := make([]string, n)
+		for i := range out {
+			out[i] = op
+		}
+		return out
+	}
+	long := [][][]string{
+		{rep("A", 300)},
+		{rep("A", 70), rep("A", 70)},
+		{append(append(rep("A", 70), rep("R", 70)...), rep("A", 70)...)},
+		{append(rep("A", 66), "R", "RR", "A", "A"), {"A", "R", "A"}},
+	}
+	// long scenarios first: a deadline (thorough tier) must not starve them
+	nLong := len(long)
+	scen = append(long, scen...)
 	idx := 0
 	for si, sc := range scen {
 		for fi, f := range formats {
@@ -217,6 +234,12 @@ func main() {
 			c := Case{Format: f, Threads: sc, Bound: -1}
 			if len(sc) >= 3 && !h.Thorough {
 				c.Bound = 3 // quick: at most 3 deviations from the default schedule for 3-thread scenarios
+			}
+			if si < nLong {
+				c.Bound = 1 // long executions: the default schedule and every single deviation from it
+				if h.Thorough && si != 2 {
+					c.Bound = 2
+				}
 			}
 			explore(c)
 			h.Sample(func() interface{} { return c })
